@@ -239,6 +239,36 @@ def expectXr (pfx : String) (url : Option String) (src : Src) : Val :=
       | some (.str s) => some (Key.str (pfx ++ kn.1), .dict (rcd.map (fun kv => if kv.1 = Key.str "url" then (kv.1, Val.str (u ++ s)) else kv)))
       | _ => none))
 
+
+/-! ### `url` stream: one node asked for its target in successive renders -/
+
+def optStrWord (w : String) : Option (Option String) :=
+  if w == "N" then some none
+  else if w.startsWith "s" then (uncps (w.drop 1).toString).map some
+  else none
+
+def parseAnc : Nat → List String → Option (List (Option String) × List String)
+  | 0, r => some ([], r)
+  | n + 1, w :: r => do
+    let a ← optStrWord w
+    let (rest, r) ← parseAnc n r
+    pure (a :: rest, r)
+  | _ + 1, [] => none
+
+def parseViews : Nat → List String → Option (List RenderView)
+  | 0, _ => none
+  | _, [] => some []
+  | f + 1, "R" :: bw :: ow :: nw :: r => do
+    let b ← optStrWord bw
+    let o ← optStrWord ow
+    let n ← nw.toNat?
+    let (anc, r) ← parseAnc n r
+    let rest ← parseViews f r
+    pure (⟨b.getD "", o, anc⟩ :: rest)
+  | _, _ => none
+
+def showStrs (xs : List String) : String := if xs.isEmpty then "none" else joinSp (xs.map (fun x => "s" ++ cps x))
+
 def handle (ws : List String) : String :=
   match ws with
   | "persist" :: rw :: r => (do
@@ -297,6 +327,13 @@ def handle (ws : List String) : String :=
         | .error e => errStr e
       pure (m ++ "\t" ++ (if decide ((keys src).Nodup) then showVal (expectXr pfx url src) else "-") ++ "\t" ++
         showKeys (prefixKeys pfx (allSectionKeys f ++ srcKeys src)))).getD "bad-request"
+  | "url" :: iw :: ow :: r => (do
+      let id ← optStrWord iw
+      let ov ← optStrWord ow
+      let views ← parseViews (r.length + 2) r
+      -- model: the node through the whole sequence; spec: every render on its own
+      pure (showStrs (renderUrls ov (id.getD "") views) ++ "\t" ++
+        showStrs (views.map (fun v => (renderUrls ov (id.getD "") [v]).headD "")))).getD "bad-request"
   | _ => "bad-op"
 
 end PlasVerif.Driver.C20
